@@ -19,7 +19,7 @@ RULE = (
     "subsequence of the input's non-hashtag words; inert words all kept in order; if the returned span covers the expression none of its words is in the subject; removing hashtags changes neither "
     "resolution nor subject; on the no-match path the subject is the blank-joined non-hashtag words.  Non-trivial = text with >=3 items; distinct = distinct texts."
 )
-ASSUMPTIONS = ["valid hashtags match [A-Za-z_][A-Za-z0-9_-]*; ordinary words contain no hyphen", "inert words as in C09"]
+ASSUMPTIONS = ["valid hashtags match [A-Za-z_][A-Za-z0-9_-]*; ordinary words contain no hyphen", "hashtags containing a RUN of dashes or a Unicode dash are not used: C11 makes every dash run equivalent to one '-', so '#a--b' legitimately comes back as label 'a-b'", "inert words as in C09"]
 
 TS = "2018-03-07T12:43:00"
 SEPS = [" ", ", ", "\t", " ; ", "\n"]
@@ -27,6 +27,22 @@ DASH_SEPS = ["-", " \u2013 "]  # only between non-hashtag items ('#a-b' is one h
 TAG_PAIRS = [("#fun", "#p_1-x"), ("#_x1", "#Q9"), ("#fun", "#funny-2")]  # last pair: one hashtag is a prefix of the other  # every character class in first and later position
 TAGS = ["#fun", "#p_1-x"]
 ORDINARY = "john"
+
+
+def _inner_words(exprs):
+    """[(expression, word)]: word is a token of the expression that no pattern matches when it stands alone"""
+    from ..derivation import normalise, all_matches
+
+    out = []
+    seen = set()
+    for e in exprs:
+        for w in e.split(" "):
+            if not w.isalpha() or (w in seen):
+                continue
+            if not all_matches(normalise(w)):
+                seen.add(w)
+                out.append((e, w))
+    return out
 
 
 def _items(tier):
@@ -46,6 +62,7 @@ def _items(tier):
 def plan(tier, seed):
     w1, w2, exprs = _items(tier)
     exprs_multi = [x for _, ss in grammar.FAMILIES for x in ss if 2 <= len(x.split(" ")) <= 4 and "#" not in x]
+    exprs_multi_all = list(exprs_multi)
     if tier == "quick":
         exprs_multi = exprs_multi[::3]
 
@@ -83,7 +100,24 @@ def plan(tier, seed):
                     for items in ([("x", inner)], [("w", w1), ("x", inner)], [("x", inner), ("w", w2)], [("w", w1), ("x", inner), ("w", w2)]):
                         yield (tuple(items) + (("E", e), ("T", tag)), " ")
 
-    space = {"expressions": len(exprs), "other_items": 5, "separators": SEPS + ["mixed"], "inert_words": [w1, w2], "ordinary_word": ORDINARY, "hashtag_pairs": [list(t) for t in TAG_PAIRS], "dash_separators": DASH_SEPS}
+        # two and three ADJACENT hashtags inside a multi-token expression (what is left behind must still be one blank)
+        for e in exprs_multi:
+            toks = e.split(" ")
+            for cut in range(1, len(toks)):
+                for tag in ("#fun #p_1-x", "#a #b #c"):
+                    inner = " ".join(toks[:cut]) + " " + tag + " " + " ".join(toks[cut:])
+                    yield ((("w", w1), ("x", inner), ("w", w2), ("E", e), ("T", tag)), " ")
+        # a word that equals an INNER word of a multi-word pattern match but stands elsewhere in the text and is matched by no pattern on its own
+        for e, word in _inner_words(exprs_multi_all):
+            for items in ([("w", w1), ("o", word), ("w", w2), ("e", e)], [("e", e), ("w", w1), ("o", word)], [("o", word), ("e", e), ("w", w2)]):
+                yield (tuple(items) + (("K", word),), " ")
+        # the same text again in another letter case, straight after the first call in the same process (labels keep their case, the resolution must not care)
+        for e in exprs:
+            for items in ([("w", w1), ("e", e), ("w", w2)], [("w", w1), ("o", ORDINARY), ("e", e), ("t", "#fun")], [("t", "#Q9"), ("e", e), ("w", w2)]):
+                for how in ("title", "upper"):
+                    yield (tuple(items) + (("V", how),), " ")
+
+    space = {"expressions": len(exprs), "other_items": 5, "inner_word_cases": len(_inner_words(exprs_multi_all)), "case_variant_sequences": ["title", "upper"], "separators": SEPS + ["mixed"], "inert_words": [w1, w2], "ordinary_word": ORDINARY, "hashtag_pairs": [list(t) for t in TAG_PAIRS], "dash_separators": DASH_SEPS}
     return {"space": space, "cases": gen(), "chunk": 32, "hash_distinct": True}
 
 
@@ -151,8 +185,11 @@ def _inner_case(items):
     b = parse(without, TS)
     v = []
     sig = {"path": "hashtag_inside_expression"}
-    if a.labels != [tag[1:]]:
-        v.append(viol(dict(sig, kind="labels"), "{!r}: labels {} expected {}".format(with_tag, a.labels, [tag[1:]])))
+    exp_labels = [t[1:] for t in tag.split(" ")]
+    if len(exp_labels) > 1:
+        sig["adjacent_hashtags"] = len(exp_labels)
+    if a.labels != exp_labels:
+        v.append(viol(dict(sig, kind="labels"), "{!r}: labels {} expected {}".format(with_tag, a.labels, exp_labels)))
     if obs(a.resolution) != obs(b.resolution):
         v.append(viol(dict(sig, kind="hashtag_changes_resolution"), "{!r} -> {} but without the hashtag {!r} -> {}".format(with_tag, fmt(obs(a.resolution)), without, fmt(obs(b.resolution)))))
     if a.subject != b.subject:
@@ -160,14 +197,44 @@ def _inner_case(items):
     return {"o": "inner:" + ("ok" if not v else v[0]["sig"]["kind"]), "nt": True, "v": v[:3]}
 
 
+def _variant_case(items, how):
+    """call the text, then straight afterwards the same text in another letter case: the oracle of the second call is the ordinary one (its own words, its own labels)"""
+    f = (lambda x: x.title()) if how == "title" else (lambda x: x.upper())
+    text = " ".join(x for _, x in items)
+    parse(text, TS)
+    it2 = [(k, (x if k == "t" else f(x))) for k, x in items]
+    # hashtags keep their spelling; everything else changes case
+    t2 = " ".join(x for _, x in it2)
+    v = []
+    _check(t2, it2, v, {"path": "match", "after_case_variant": how})
+    a = parse(text, TS)
+    b = parse(t2, TS)
+    if obs(a.resolution) != obs(b.resolution):
+        v.append(viol({"path": "match", "kind": "case_changes_resolution", "after_case_variant": how}, "{!r} -> {} but {!r} -> {}".format(text, fmt(obs(a.resolution)), t2, fmt(obs(b.resolution)))))
+    return {"o": "variant:" + ("ok" if not v else v[0]["sig"]["kind"]), "nt": True, "v": v[:3]}
+
+
 def run_case(case):
     items, sep = case
     items = [tuple(x) for x in items]
     if any(k == "E" for k, _ in items):
         return _inner_case(items)
+    keep = next((x for k, x in items if k == "K"), None)
+    tagclass = next((x for k, x in items if k == "C"), None)
+    variant = next((x for k, x in items if k == "V"), None)
+    items = [(k, x) for k, x in items if k not in ("K", "C", "V")]
+    if variant:
+        return _variant_case(items, variant)
     text = _join([x for _, x in items], sep)
     v = []
     sig = {"path": "match"}
+    if tagclass:
+        sig["tagclass"] = tagclass
+    if keep:
+        r = parse(text, TS)
+        sw = (r.subject or "").split(" ")
+        if r.resolution is not None and keep not in sw:
+            return {"o": "inner_word_lost", "nt": True, "v": [viol({"path": "match", "kind": "unmatchable_word_lost", "why": "equals_inner_word_of_match"}, "{!r}: subject {!r} lost {!r}, a word no pattern matches on its own (it only equals a word inside the matched expression)".format(text, r.subject, keep))]}
     o, subj = _check(text, items, v, sig)
     tags = [x for k, x in items if k == "t"]
     # hashtags removed (all at once and one by one)
